@@ -86,7 +86,10 @@ pub fn all_mutants(seed: &Seed, rng: &mut Rng, quick: bool) -> Vec<Mutant> {
             out.push(Mutant { class: format!("byte:{}", mutate::field_at(&seed.map, off)), bytes: v });
         }
     }
-    out.extend(mutate::structured(&seed.bytes, &seed.map, rng, digest_size(seed.inst.hs)));
+    let first = mutate::structured(&seed.bytes, &seed.map, rng, digest_size(seed.inst.hs));
+    let pairs = mutate::second_generation(&first, rng, digest_size(seed.inst.hs), if quick { 400 } else { 6000 });
+    out.extend(first);
+    out.extend(pairs);
     for cut in 0..n {
         if quick && cut > 200 && cut % 4 != 0 {
             continue;
